@@ -158,7 +158,7 @@ def serialise(node, prefix='tal', spelling=None, root=True):
     dyn = []
     for st in present:
         if as_element:
-            if st == 'omit':
+            if st == 'omit' and not node.get('keep_omit'):
                 continue                     # the element form implies the omission of the tag
             dyn.append('%s="%s"' % (TALNAME.get(st, st), attr_escape(statement_text(node, st))))
         else:
